@@ -437,7 +437,7 @@ pub fn check_case(c: &Case, acc: &mut Acc) -> CaseResult {
 
 fn run_shard(ctx: &ShardCtx, acc: &mut Acc) {
     let tier = ctx.tier;
-    drive(ctx, "main", tier.pick(2_500, 40_000), 1_200, acc, &|ch, acc| {
+    drive(ctx, "main", tier.pick(20_000, 250_000), 1_200, acc, &|ch, acc| {
         let c = gen_case(ch, tier);
         acc.sample(|| case_json(&c));
         check_case(&c, acc)
